@@ -13,7 +13,7 @@ import (
 
 func init() {
 	register("C16", runC16, propMeta{
-		Explanation: "Decides, for every sequence of management operations, the structural conditions behind 'queries and executions agree with the denoted rule set and no sequence panics': (Q1) the master builder gp.ruleBuilder is set to nil by ClearPoolRules; in every management operation and query each use of it is reachable only through the not-nil edge of a test of it or after a store of a freshly created builder (path-sensitive, so the `clear || nil` idiom and the re-creation on a cleared pool are both understood); (Q2) every function that replaces or mutates the master also installs the master's container on all instances (C07-U3) under updateLock and, on success, stores clear=false; ClearPoolRules stores clear=true, ruleBuilder=nil and a fresh empty container on every instance; (Q3) the four rule queries read the master only under updateLock and only when the cleared flag is known false; (Q4) all 24 execute methods return (nil, empty map) on a cleared pool before acquiring an engine; (Q5) SetExecModel and NewGenginePool accept exactly the four model constants, each ...WithSpecifiedEM method has for each constant a branch on gp.execModel calling the engine method of that model (exhaustive 4x3 table), every other pool execute method calls the engine method of the same name with its n, m, flag and name arguments in the same positions; (Q6) initial and additional instances are treated alike: the instance loops cover [0,max) and wrapper tags are a bijection onto it. (Q9) the pool's incremental merge keeps name map, sorted list and index in step (the merge model of C08 on updateIncremental). Not decided: equality of query answers with the denoted set over histories (needs the algebra of C08). prepare* bind gw.rulebuilder = gp.rbSlice[gw.tag] on every request (Q10): executions follow what the management operations publish. (Q11) every engine method starts from a fresh result map before anything else, also before its 'no rule' error return.",
+		Explanation: "Decides, for every sequence of management operations, the structural conditions behind 'queries and executions agree with the denoted rule set and no sequence panics': (Q1) the master builder gp.ruleBuilder is set to nil by ClearPoolRules; in every management operation and query each use of it is reachable only through the not-nil edge of a test of it or after a store of a freshly created builder (path-sensitive, so the `clear || nil` idiom and the re-creation on a cleared pool are both understood); (Q2) every function that replaces or mutates the master also installs the master's container on all instances (C07-U3) under updateLock and, on success, stores clear=false; ClearPoolRules stores clear=true, ruleBuilder=nil and a fresh empty container on every instance; (Q3) the four rule queries read the master only under updateLock and only when the cleared flag is known false; (Q4) all 24 execute methods return (nil, empty map) on a cleared pool before acquiring an engine; (Q5) SetExecModel and NewGenginePool accept exactly the four model constants, each ...WithSpecifiedEM method has for each constant a branch on gp.execModel calling the engine method of that model (exhaustive 4x3 table), every other pool execute method calls the engine method of the same name with its n, m, flag and name arguments in the same positions; (Q6) initial and additional instances are treated alike: the instance loops cover [0,max) and wrapper tags are a bijection onto it. (Q9) the pool's incremental merge keeps name map, sorted list and index in step (the merge model of C08 on updateIncremental). Not decided: equality of query answers with the denoted set over histories (needs the algebra of C08). prepare* bind gw.rulebuilder = gp.rbSlice[gw.tag] on every request (Q10): executions follow what the management operations publish. (Q11) every engine method starts from a fresh result map before anything else, also before its 'no rule' error return. (Q12) the pool's compile pipeline walks the tree with the listener and tests the lexer's, the parser's and the listener's error lists after they can have been filled and before a container is handed on: a text that does not compile changes nothing.",
 		Assumptions: []string{"PluginLoader is outside the property's operation list (it dereferences the master without a guard)"},
 		Trusted:     commonTrusted,
 	})
@@ -415,6 +415,16 @@ func runC16(c *Ctx) {
 	// ... and inserts where the binary search over the descending list says (C08-H1b)
 	c.ruleBinarySearch("Q9-binary-search-descending")
 	c.Min("Q9-binary-search-descending", 3)
+	// an update whose text does not compile denotes no change: the pool's own pipeline walks the tree
+	// with the listener and tests the three error lists after they can have been filled, before it
+	// hands a container on (the pipeline rule of C10-K1 on the pool's copy) -- a listener error tested
+	// before the walk lets the rules compiled so far be merged and the rest be dropped
+	c.only = func(key string) bool {
+		return !strings.HasPrefix(key, "RuleBuilder.") && key != "pipelines" && (strings.Contains(key, "-errors-checked") || strings.HasSuffix(key, "#walk") || strings.HasSuffix(key, "#fresh-container"))
+	}
+	c.rulePipelines("Q12-update-refused-unless-compiled")
+	c.only = nil
+	c.Min("Q12-update-refused-unless-compiled", 5)
 }
 
 // model constants of package engine
